@@ -10,7 +10,7 @@ CONSTANTS
   QCap = 1
   MCap = 1
   SrvAccept <- CodeFilter
-  StubRuns <- Types
+  StubRuns <- ReqTypes
   AuthRuns <- CallOnly
   AuthMode = "yes"
   Script <- NoScript
@@ -25,6 +25,6 @@ CONSTANTS
   ObjOf <- objA
   ActOf <- actA
   Raws <- rawA
-  Deviations <- NoDev
+  Deviations = {"DroppedPostAnswered"}
 INVARIANTS TypeOK AtMostOneOutcome OwnResult ExecOnceIfOk ExecAtMostOnce PostAtMostOnce PostNoResponse FramesOwed OnlyCallAndPostExecute ErrorIsOwn
 CHECK_DEADLOCK FALSE
